@@ -50,7 +50,7 @@ class Result(dict):
 
 def mk_result(name, clause, kind, status, backend, time_s=0.0, detail="", witness=None, func=None):
     return Result(name=name, clause=clause, kind=kind, status=status, backend=backend,
-                  time_s=round(time_s, 4), detail=detail[:2000] if detail else "", witness=witness, func=func)
+                  time_s=round(time_s, 4), detail=(detail if len(detail) <= 2400 else detail[:400] + " ... " + detail[-2000:]) if detail else "", witness=witness, func=func)
 
 
 def func_info(spec):
